@@ -65,7 +65,7 @@ class HashSigner:
     def _get_sign_and_digestmod(self, sign: bytes) -> tuple[bytes, bytes]:
         digestmod = self._digestmod
         if b":" in sign:
-            digestmod, sign = sign.split(b":")
+            digestmod, sign = sign.split(b":", 1)
         if digestmod not in self._digestmods:
             raise UnSecureDataError()
         return sign, digestmod
